@@ -349,7 +349,7 @@ func c06Sess(f []string) string {
 			case ppp.ConfRej:
 				acts = append(acts, fmt.Sprintf("scj:%d:%s", p.id, c06ShowWire(p.data)))
 			case ppp.TermAck:
-				acts = append(acts, fmt.Sprintf("sta:%d", p.id))
+				acts = append(acts, "sta") // the identifier echoes a harness-chosen one
 			default:
 				acts = append(acts, fmt.Sprintf("x%d", p.code))
 			}
@@ -421,6 +421,29 @@ func c06Sess(f []string) string {
 		case ev[0] == 't':
 			tid, _ := strconv.Atoi(ev[1:])
 			s.ipcp.FSM().Input(ppp.TermReq, uint8(tid), nil)
+		case ev == "X":
+			// the restart timer keeps expiring until Max-Configure is exhausted (TO+ ... then TO-); how many
+			// retransmissions that takes is the automaton's business (C05): only the last one is shown
+			for n := 0; n < 12; n++ {
+				st := s.ipcp.FSM().State()
+				if st != ppp.ReqSent && st != ppp.AckRcvd && st != ppp.AckSent {
+					break
+				}
+				s.ipcp.FSM().Timeout()
+			}
+			var keep []c06Pkt
+			for i := range bus.ipcp {
+				if bus.ipcp[i].code != ppp.ConfReq {
+					keep = append(keep, bus.ipcp[i])
+				}
+			}
+			for i := len(bus.ipcp) - 1; i >= 0; i-- {
+				if bus.ipcp[i].code == ppp.ConfReq {
+					keep = append([]c06Pkt{bus.ipcp[i]}, keep...)
+					break
+				}
+			}
+			bus.ipcp = keep
 		case ev == "T":
 			// the restart timer expires while negotiating (the generator keeps the number of time-outs per
 			// case below Max-Configure, so the restart counter is positive: retransmission)
@@ -521,7 +544,7 @@ func c06Sess6(f []string) string {
 			case ppp.ConfRej:
 				acts = append(acts, fmt.Sprintf("scj:%d:%s", p.id, c06ShowWire(p.data)))
 			case ppp.TermAck:
-				acts = append(acts, fmt.Sprintf("sta:%d", p.id))
+				acts = append(acts, "sta") // the identifier echoes a harness-chosen one
 			default:
 				acts = append(acts, fmt.Sprintf("x%d", p.code))
 			}
@@ -673,7 +696,7 @@ func c06SessL(f []string) string {
 			case ppp.ConfRej:
 				acts = append(acts, fmt.Sprintf("scj:%d:%s", p.id, c06ShowWire(p.data)))
 			case ppp.TermAck:
-				acts = append(acts, fmt.Sprintf("sta:%d", p.id))
+				acts = append(acts, "sta") // the identifier echoes a harness-chosen one
 			default:
 				// Echo, CHAP etc. are not LCP configure traffic
 			}
@@ -732,6 +755,152 @@ func c06SessL(f []string) string {
 	return strings.Join(parts, " | ")
 }
 
+// Authentication gates the NCPs: a real session with LCP Opened and CHAP pending; IPCP / IPv6CP frames arrive
+// through the real dispatcher; the AAA verdict is the real onAuthResult(false) or, for an accept, what
+// onAuthSuccess does (extractIPFromAttributes + startNCP).
+func c06Auth(f []string) string {
+	ifMgr := ifmgr.New()
+	ifMgr.Add(&ifmgr.Interface{SwIfIndex: 10, SupSwIfIndex: 2, Name: "TenGigE0/0.100", Type: ifmgr.IfTypeSub, OuterVlanID: 100})
+	ifMgr.Add(&ifmgr.Interface{SwIfIndex: 2, Name: "TenGigE0/0", Type: ifmgr.IfTypeHardware, MAC: []byte{0x52, 0x54, 0x00, 0x11, 0x22, 0x33}})
+	bus := &c06Bus{}
+	c := &Component{
+		Base:     component.NewBase("pppoe-verif"),
+		logger:   logger.NewTest(),
+		eventBus: bus,
+		ifMgr:    ifMgr,
+		cfgMgr:   &c06CfgMgr{cfg: &config.Config{}},
+	}
+	s := &SessionState{
+		component:      c,
+		SessionID:      "s1",
+		PPPoESessionID: 7,
+		MAC:            net.HardwareAddr{0xaa, 0x42, 0xa1, 0x0a, 0x54, 0x97},
+		OuterVLAN:      100,
+		EncapIfIndex:   10,
+		Username:       "u",
+		Attributes:     map[string]string{},
+	}
+	s.initPPP()
+	if !c06LCPOpened(s, bus, true) {
+		return "lcp-not-opened"
+	}
+	defer func() {
+		s.stopCHAPRetryTimer()
+		s.ipcp.FSM().Kill()
+		s.ipv6cp.FSM().Kill()
+		s.lcp.FSM().Kill()
+	}()
+	s.pendingAuthType = "chap"
+	s.pendingCHAPID = s.chapID
+	bus.ipcp, bus.v6, bus.lcp = nil, nil, nil
+	started := false
+	var lastReq *c06Pkt
+	ncp := func() string {
+		var acts []string
+		for i := range bus.ipcp {
+			p := bus.ipcp[i]
+			switch p.code {
+			case ppp.ConfReq:
+				lastReq = &bus.ipcp[i]
+				acts = append(acts, "scr:"+c06ShowWire(p.data))
+			case ppp.ConfAck:
+				acts = append(acts, fmt.Sprintf("sca:%d:%s", p.id, c06ShowWire(p.data)))
+			case ppp.ConfNak:
+				acts = append(acts, fmt.Sprintf("scn:%d:%s", p.id, c06ShowWire(p.data)))
+			case ppp.ConfRej:
+				acts = append(acts, fmt.Sprintf("scj:%d:%s", p.id, c06ShowWire(p.data)))
+			default:
+				acts = append(acts, fmt.Sprintf("x%d", p.code))
+			}
+		}
+		for _, p := range bus.v6 {
+			if !started || p.code != ppp.ConfReq {
+				acts = append(acts, fmt.Sprintf("v6x%d", p.code)) // nothing for IPv6CP may leave before the accept
+			}
+		}
+		bus.ipcp, bus.v6 = nil, nil
+		if len(acts) == 0 {
+			return "-"
+		}
+		return strings.Join(acts, " ")
+	}
+	frame := func(code, id uint8, data []byte) []byte {
+		l := 4 + len(data)
+		return append([]byte{code, id, byte(l >> 8), byte(l)}, data...)
+	}
+	var parts []string
+	for _, ev := range f {
+		tr := 0
+		switch ev[0] {
+		case 'i', '6', 'q':
+			i := strings.IndexByte(ev, '.')
+			id, _ := strconv.Atoi(ev[1:i])
+			data := c06Bytes(ev[i+1:])
+			if started && ev[0] != '6' {
+				s.ipcp.FSM().Input(ppp.ConfReq, uint8(id), data)
+			} else if !started {
+				proto := ppp.ProtoIPCP
+				if ev[0] == '6' {
+					proto = ppp.ProtoIPv6CP
+				}
+				_ = s.dispatcher.HandleFrame(proto, frame(ppp.ConfReq, uint8(id), data))
+			}
+		case 'F':
+			if !started {
+				s.onAuthResult(false, nil)
+			}
+		case 'S':
+			if !started && s.lcp.FSM().State() == ppp.Opened {
+				if ev[1:] != "none" {
+					s.Attributes[aaa.AttrIPv4Address] = net.IP(c06Bytes(ev[1:])).String()
+				}
+				s.extractIPFromAttributes()
+				s.startNCP()
+				started = true
+			}
+		case 'T':
+			if !started {
+				s.lcp.FSM().Timeout()
+			}
+		case 'k':
+			if started {
+				if lastReq == nil {
+					s.ipcp.FSM().Input(ppp.ConfAck, 0, nil)
+				} else {
+					s.ipcp.FSM().Input(ppp.ConfAck, lastReq.id, lastReq.data)
+				}
+			}
+		default:
+			return "badevent"
+		}
+		for _, p := range bus.lcp {
+			if p.code == ppp.TermReq {
+				tr++
+			}
+		}
+		bus.lcp = nil
+		a := ncp()
+		switch {
+		case started:
+			up := 0
+			if s.ipcpOpen {
+				up = 1
+			}
+			parts = append(parts, fmt.Sprintf("%s up=%d a=%s pa=%s", a, up, c06ShowAddr(s.IPv4Address),
+				c06ShowAddr(s.ipcp.PeerConfig().PeerAddress)))
+		case s.lcp.FSM().State() == ppp.Opened:
+			parts = append(parts, a+" pre")
+		case s.lcp.FSM().State() == ppp.Closing:
+			parts = append(parts, fmt.Sprintf("%s closing tr=%d", a, tr))
+		case s.lcp.FSM().State() == ppp.Closed:
+			parts = append(parts, a+" closed")
+		default:
+			parts = append(parts, fmt.Sprintf("%s lcp=%d", a, s.lcp.FSM().State()))
+		}
+	}
+	return strings.Join(parts, " | ")
+}
+
 func c06Case(line string) (out string) {
 	defer func() {
 		if r := recover(); r != nil {
@@ -745,6 +914,9 @@ func c06Case(line string) (out string) {
 	f := strings.Fields(line)
 	if len(f) >= 2 && f[0] == "s6" {
 		return c06Sess6(f[1:])
+	}
+	if len(f) >= 2 && f[0] == "pa" {
+		return c06Auth(f[1:])
 	}
 	if len(f) >= 2 && f[0] == "sl" {
 		return c06SessL(f[1:])
